@@ -163,12 +163,15 @@ def analyse29(ck):
     prog = ck.prog
     mv = e2.MethodView(ck, "^" + INPUTS + r"::validate_proof_count$", INPUTS)
     cnt = mv.param(1)
-    z = mv.rejects("Eq", lambda t: P.norm(t) == cnt, lambda t: P.const_of(t) == 0)
-    m = mv.rejects("Gt", lambda t: P.norm(t) == cnt, lambda t: const_name(t) == "MAX_PROOF_COUNT" and P.const_of(t) == 64)
-    ob.add({"C29", "C24"}, len(z) == 1 and len(m) == 1 and all(g["outcome"] <= {"err"} for g in z + m) and prog.const_value(INPUTS + "::MAX_PROOF_COUNT") == 64, "CMP", "validate_proof_count",
-           "validate_proof_count rejects 0 and anything above MAX_PROOF_COUNT = 64 with Err", mv.loc0, [(T.show(g["cond"])[:80], g["fail_when"]) for g in mv.gt])
-    n_err = len([g for g in mv.gt if g["outcome"] & {"err", "panic"}])
-    ob.add({"C29"}, n_err == 2, "INV", "validate_proof_count/exact", "exactly these two rejections: accepts exactly 1..=64", mv.loc0)
+    # IVL: the set of counts rejected by the function's guards, whatever comparison form they use (`== 0`, `< 1`, `> MAX`, `MAX < n`,
+    # `!(1..=MAX).contains(&n)` …), must be exactly {0} ∪ [65, ∞); the upper bound must be the named constant, every rejection an Err
+    rs = guards.rejected_sets(mv.gt, lambda t: P.norm(t) == cnt)
+    rejected = guards.union_intervals([iv for _, ivs, _ in rs for iv in ivs])
+    named = any(const_name(c) == "MAX_PROOF_COUNT" for _, _, cs in rs for c in cs)
+    ob.add({"C29", "C24"}, rejected == [(0, 0), (65, None)] and named and all(g["outcome"] <= {"err"} for g, _, _ in rs) and prog.const_value(INPUTS + "::MAX_PROOF_COUNT") == 64, "CMP", "validate_proof_count",
+           "validate_proof_count rejects 0 and anything above MAX_PROOF_COUNT = 64 with Err (rejected set %s)" % rejected, mv.loc0, [(T.show(g["cond"])[:80], g["fail_when"]) for g in mv.gt])
+    other = [g for g in mv.gt if (g["outcome"] & {"err", "panic"}) and not any(g is g2 for g2, _, _ in rs)]
+    ob.add({"C29"}, not other, "INV", "validate_proof_count/exact", "no rejection other than the count bounds: accepts exactly 1..=64", mv.loc0, [(T.show(g["cond"])[:80], g["fail_when"]) for g in other])
     vcs = prog.call_sites(r"qp_wormhole_inputs::validate_proof_count$")
     libs = [x for x in vcs if x[0].crate != "wormhole_memprof"]
     ob.add({"C29"}, len(libs) >= 19, "INV", "validators/floor", "%d library call sites of validate_proof_count (floor 19)" % len(libs))
